@@ -1,6 +1,5 @@
 """C43 — the difficulty relay maintainer proves each epoch once with the right headers."""
 META = {
-    "disabled": True,
     "level": "model_checking",
     "text": "The maintainer's control loop (startControlLoop / proveEpochs / verifySubmissionEligibility / proveNextEpoch / "
             "getBlockHeaders / waitForCurrentEpochUpdate) is specified query by query and interleaved with an adversarial "
